@@ -7,8 +7,8 @@
    the shape [shape r] ("non-empty, '-' only as first byte") of the renderings
    of the bounds that occur — which the harness asserts on every rendering it
    sees. *)
-From Coq Require Import ZArith List Bool Permutation.
-From Tally Require Import Model.Buckets Model.Statsd Proof.StatsdP.
+From Coq Require Import ZArith List Bool Permutation Lia.
+From Tally Require Import Model.Buckets Model.Statsd Proof.StatsdP Model.DurString Proof.DurStringP Proof.StatsdDurP.
 Import ListNotations.
 Open Scope Z_scope.
 
@@ -121,6 +121,36 @@ Theorem C18_histogram_names_distinct_uppers : forall fmtf fmtd k p name spec,
   NoDup (hist_names fmtf fmtd k p name spec).
 Proof. exact hist_names_nodup_uppers. Qed.
 Print Assumptions C18_histogram_names_distinct_uppers.
+
+(* Duration histograms: the rendering is Go's time.Duration.String(), modelled in Model/DurString.v
+   (checked against the Go runtime's renderings on every case by the correspondence check) - no
+   oracle and no shape assumption is left for this kind.  The rendering is injective on int64
+   (reading it back gives the duration) ... *)
+Theorem C18_duration_rendering_injective : forall d d',
+  MINI <= d <= MAXI -> MINI <= d' <= MAXI -> dur_string d = dur_string d' -> d = d'.
+Proof. intros d d' H H'. apply dur_string_injective; unfold MINI64, MAXI64, MINI, MAXI in *; lia. Qed.
+Print Assumptions C18_duration_rendering_injective.
+
+Theorem C18_duration_rendering_shape : forall d, shape (dur_string d).
+Proof. exact dur_shape. Qed.
+Print Assumptions C18_duration_rendering_shape.
+
+(* ... hence the buckets of a duration histogram whose upper bounds differ never share a stat
+   name: for every specification of int64 durations, any value rendering and precision *)
+Theorem C18_duration_names_distinct : forall fmtf p name spec,
+  (forall x, In x spec -> MINI <= x <= MAXI) ->
+  NoDup (uppers KDuration spec) ->
+  NoDup (hist_names fmtf dur_string KDuration p name spec).
+Proof. exact duration_names_distinct. Qed.
+Print Assumptions C18_duration_names_distinct.
+
+(* "0s", "1.5µs", "1h1m1.000000001s", "-1m30s", "2562047h47m16.854775807s" *)
+Example C18_duration_rendering_examples :
+  map dur_string [0; 1500; 3661000000001; -90000000000; MAXI] =
+  [[48;115]; [49;46;53;194;181;115]; [49;104;49;109;49;46;48;48;48;48;48;48;48;48;49;115];
+   [45;49;109;51;48;115];
+   [50;53;54;50;48;52;55;104;52;55;109;49;54;46;56;53;52;55;55;53;56;48;55;115]].
+Proof. vm_compute. reflexivity. Qed.
 
 (* ---------- non-vacuity ---------- *)
 (* a toy oracle: the bound's low byte as one character, '-' in front for "negative" bits *)
